@@ -286,9 +286,16 @@ func suffixResliceOfSameField(st *ssa.Store) string {
 // reachUnder computes the blocks reachable from entry when conditional branches whose
 // condition assume() decides are followed only along the decided edge.
 func reachUnder(f *ssa.Function, assume func(cond ssa.Value) int) map[*ssa.BasicBlock]bool {
+	reach, _ := reachUnderEval(f, assume)
+	return reach
+}
+
+// reachUnderEval is reachUnder that also hands back the evaluator of boolean values it used
+// (valid for the final reachability).
+func reachUnderEval(f *ssa.Function, assume func(cond ssa.Value) int) (map[*ssa.BasicBlock]bool, func(ssa.Value) int) {
 	reach := map[*ssa.BasicBlock]bool{}
 	if len(f.Blocks) == 0 {
-		return reach
+		return reach, func(ssa.Value) int { return 0 }
 	}
 	type edge struct{ from, to *ssa.BasicBlock }
 	live := map[edge]bool{}
@@ -357,7 +364,32 @@ func reachUnder(f *ssa.Function, assume func(cond ssa.Value) int) map[*ssa.Basic
 			}
 		}
 	}
-	return reach
+	return reach, func(v ssa.Value) int { return decide(v, 0) }
+}
+
+// boolResultUnder: the value a boolean module function returns under the assumptions: 1 when
+// every reachable return yields true, -1 when every one yields false, 0 otherwise.
+func boolResultUnder(f *ssa.Function, assume func(cond ssa.Value) int) int {
+	reach, eval := reachUnderEval(f, assume)
+	res, set := 0, false
+	for _, b := range f.Blocks {
+		if !reach[b] {
+			continue
+		}
+		ret, ok := b.Instrs[len(b.Instrs)-1].(*ssa.Return)
+		if !ok {
+			continue
+		}
+		if len(ret.Results) != 1 {
+			return 0
+		}
+		d := eval(ret.Results[0])
+		if d == 0 || (set && d != res) {
+			return 0
+		}
+		res, set = d, true
+	}
+	return res
 }
 
 // strFieldEmptyCond evaluates cond under the assumption that string field `field` is "".
